@@ -18,7 +18,7 @@ _USE_PATTERN_MATCHING = (sys.version_info >= (3, 10))
 
 
 class PyRTLProcess(BaseProcess):
-    __slots__ = ("is_comb", "runnable", "critical", "run")
+    __slots__ = ("is_comb", "runnable", "critical", "run", "clk_edge")
 
     def __init__(self, *, is_comb):
         self.is_comb  = is_comb
@@ -28,6 +28,9 @@ class PyRTLProcess(BaseProcess):
     def reset(self):
         self.runnable = self.is_comb
         self.critical = False
+        # Set if the process was woken up by an active clock edge (as opposed to an asynchronous
+        # reset); only used for domains with an asynchronous reset.
+        self.clk_edge = False
 
 
 class _PythonEmitter:
@@ -458,10 +461,12 @@ def comb_waker(process):
     return waker
 
 
-def edge_waker(process, polarity):
+def edge_waker(process, polarity, *, is_clock=False):
     def waker(curr, next):
         if next == polarity:
             process.runnable = True
+            if is_clock:
+                process.clk_edge = True
         return True
     return waker
 
@@ -534,27 +539,23 @@ class _FragmentCompiler:
             else:
                 domain = fragment.domains[domain_name]
                 clk_polarity = 1 if domain.clk_edge == "pos" else 0
-                self.state.add_signal_waker(domain.clk, edge_waker(domain_process, clk_polarity))
-                if domain.async_reset and domain.rst is not None:
+                async_reset = domain.async_reset and domain.rst is not None
+                self.state.add_signal_waker(domain.clk,
+                    edge_waker(domain_process, clk_polarity, is_clock=True))
+                if async_reset:
                     self.state.add_signal_waker(domain.rst, edge_waker(domain_process, 1))
 
                 for (signal, _) in lhs_masks.masks():
                     signal_index = self.state.get_signal(signal)
                     emitter.append(f"next_{signal_index} = slots[{signal_index}].next")
 
-                _StatementCompiler(self.state, emitter)(domain_stmts)
+                if async_reset:
+                    # The process is also woken up when the reset is asserted; in that case only
+                    # the reset takes effect, and nothing else in the domain advances.
+                    emitter.append("if process.clk_edge:")
+                    emitter._level += 1
 
-                if domain.rst is not None:
-                    rhs = _RHSValueCompiler(self.state, emitter, mode="curr")
-                    rst = rhs(domain.rst)
-                    rst = f"(1 & {rst})"
-                    emitter.append(f"if {rst}:")
-                    with emitter.indent():
-                        emitter.append("pass")
-                        for (signal, _) in lhs_masks.masks():
-                            if not signal.reset_less:
-                                signal_index = self.state.get_signal(signal)
-                                emitter.append(f"next_{signal_index} = {signal.init}")
+                _StatementCompiler(self.state, emitter)(domain_stmts)
 
                 if isinstance(fragment, MemoryInstance):
                     memory_index = self.state.get_memory(fragment._data)
@@ -597,6 +598,22 @@ class _FragmentCompiler:
 
                             lhs(port._data)(data)
 
+                if async_reset:
+                    emitter.append("process.clk_edge = False")
+                    emitter._level -= 1
+
+                if domain.rst is not None:
+                    rhs = _RHSValueCompiler(self.state, emitter, mode="curr")
+                    rst = rhs(domain.rst)
+                    rst = f"(1 & {rst})"
+                    emitter.append(f"if {rst}:")
+                    with emitter.indent():
+                        emitter.append("pass")
+                        for (signal, _) in lhs_masks.masks():
+                            if not signal.reset_less:
+                                signal_index = self.state.get_signal(signal)
+                                emitter.append(f"next_{signal_index} = {signal.init}")
+
             for (signal, mask) in lhs_masks.masks():
                 if signal.shape().signed and (mask & 1 << (len(signal) - 1)):
                     mask |= -1 << len(signal)
@@ -616,6 +633,7 @@ class _FragmentCompiler:
 
             exec_locals = {
                 "slots": self.state.slots,
+                "process": domain_process,
                 **_ValueCompiler.helpers,
                 **_StatementCompiler.helpers,
             }
